@@ -331,7 +331,11 @@ RELABEL = {
     "insert_handler_does_not_invalidate": (None, IDXDEP),
     "remove_swap_failure_keeps_index": (None, ["C06", "C02"] + IDXDEP),
     "update_invalidates_after_swap": (None, ["C06", "C03"] + IDXDEP),
-    "temp_file_default_encoding": (None, ["C01", "C02", "C03", "C05", "C06", "C07"]),
+    "temp_file_default_encoding": (None, ["C01", "C02", "C03", "C05", "C06", "C07", "C12"]),
+    "insert_default_time_naive": (None, ["C04"]),
+    "time_setter_unvalidated": (None, ["C11"]),
+    "remove_swaps_on_noop": (None, ["C12"]),
+    "compound_call_repeats_q1": (None, ["C17"]),
     "no_flush_before_copy": (None, ["C01", "C02", "C03", "C06"]),
     "reopen_with_original_mode": (None, ["C01", "C02", "C03", "C06"]),
     "remove_swap_failure_keeps_index_": (None, []),
